@@ -40,6 +40,9 @@ RSHAPE = {2: (3, 4), 3: (2, 3, 4)}
 VALUE_PALETTES = [(10.0, 1.0), (7.0, -3.5), (-4.0, 100.0)]    # source values = k*arange + c (all distinct)
 
 
+FAR = 2 ** 24 + 3
+
+
 def configs(tier):
     out = []
     if tier == 'quick':
@@ -95,7 +98,8 @@ def cfg_class(cfg):
     else:
         kind = 'permuted'
     return 'nd=%d|%s%s%s%s' % (nd, kind, '|relinked' if cfg.get('relink') else '',
-                               '|pixel-aligned' if cfg.get('same') else '', '|world-linked' if cfg.get('world') else '')
+                               '|pixel-aligned' if cfg.get('same') else '', '|world-linked' if cfg.get('world') else '') + \
+        ('|far-origin' if cfg.get('origin') else '')
 
 
 class World(object):
@@ -142,6 +146,8 @@ def build_world(cfg):
         return S
 
     ab = AB_SETS[cfg['ab']]
+    if cfg.get('origin'):
+        ab = [(a, b - a * cfg['origin']) for a, b in ab]
     S = add_source('S', cfg['perm'], ab, ['s', 't'])
     # the "other dataset": reversed axis assignment and a different map
     perm2 = list(cfg['perm'])[::-1]
@@ -311,6 +317,9 @@ def check_requests(res, cfg, first):
     opts = [bound_options(n) for n in rshape]
     for rest in itertools.product(*opts[1:]):
         bounds = [opts[0][first]] + list(rest)
+        if cfg.get('origin'):
+            O = cfg['origin']
+            bounds = [(b[0] + O, b[1] + O, b[2]) if isinstance(b, tuple) else b + O for b in bounds]
         bcls = ''.join(bound_class(b, n) for b, n in zip(bounds, rshape))
         whats = [('val', 's'), ('val', 't'), ('mask', 'roi'), ('mask', 'ineq')]
         if cfg.get('same'):
@@ -674,6 +683,11 @@ def all_cases(tier):
     for cfg in configs(tier):
         for first in range(8):
             cases.append(['req', cfg, first])
+    # the same geometry seen from FAR reference positions (pixel coordinates around 2**24, where float32 can no
+    # longer tell neighbouring pixels apart): all bounds shifted by the origin, the link offsets shifted back
+    for cfg in [dict(rshape=[3, 4], perm=[1, 0], ab='mixed'), dict(rshape=[2, 3, 4], perm=[2, 0, 1], ab='shift')]:
+        for first in range(8):
+            cases.append(['req', dict(cfg, origin=FAR), first])
     # the same requests after the links have been replaced (set_links) by links with another scale/offset
     for cfg in configs(tier):
         if cfg['ab'] == 'mixed' and (tier == 'thorough' or len(cfg['rshape']) == 2 or cfg['perm'] == list(range(3))):
